@@ -26,6 +26,8 @@ const prelude = `(set-option :produce-models true)
 (define-fun fld_base ((l Loc)) Loc (mkloc (rootid l) (pf_base (path l))))
 (define-fun fld_i ((l Loc)) Int (pf_i (path l)))
 (declare-datatypes ((Slice 0)) (((mkslice (s_arr Loc) (s_off Int) (s_len Int) (s_cap Int)))))
+(declare-fun sidx (Slice Int) Loc)
+(assert (forall ((s Slice) (i Int)) (! (= (sidx s i) (idx (s_arr s) (+ (s_off s) i))) :pattern ((sidx s i)))))
 (declare-sort Str 0)
 (declare-sort Iface 0)
 (declare-const nil_iface Iface)
